@@ -1,6 +1,7 @@
 package main
 
 import (
+	"strconv"
 	"os"
 	"fmt"
 	"go/ast"
@@ -373,6 +374,68 @@ func (c *Ctx) verify() {
 	// vacuity: precondition satisfiable
 	c.reach(s, "reach", "pre", "precondition satisfiable")
 	c.entryCmds = len(s.cmds)
+	if sl := c.fc.Opts["startloop"]; sl != "" {
+		ord, _ := strconv.Atoi(strings.TrimSpace(sl))
+		var hdr *ssa.BasicBlock
+		for b, o := range fr.fi.headers {
+			if o == ord {
+				hdr = b
+			}
+		}
+		if hdr == nil {
+			unsup("opt startloop %d: no such loop", ord)
+		}
+		c.assumptions[fmt.Sprintf("opt startloop: %s is examined from the head of loop #%d on, from an arbitrary state satisfying that loop's invariants (the part before the loop is examined by the companion contract with opt cutatloop)", c.name, ord)] = true
+		// parameters that the function keeps in variable cells (because a function literal captures them) and never
+		// reassigns still hold the parameter's value
+		for _, in := range fn.Blocks[0].Instrs {
+			st, ok := in.(*ssa.Store)
+			if !ok {
+				continue
+			}
+			al, isAl := st.Addr.(*ssa.Alloc)
+			_, isParam := st.Val.(*ssa.Parameter)
+			if !isAl || !isParam {
+				continue
+			}
+			stores := 0
+			for _, ref := range *al.Referrers() {
+				if s2, ok := ref.(*ssa.Store); ok && s2.Addr == al {
+					stores++
+				}
+			}
+			if stores == 1 {
+				c.step(s, fr, al)
+				c.step(s, fr, st)
+			}
+		}
+		c.lazyRegs = true
+		c.startLoop = hdr
+		// every variable declared before the loop exists (with arbitrary content) and can be named by the invariant
+		for _, bb := range fn.Blocks {
+			if fr.fi.inLoop[hdr][bb] {
+				continue
+			}
+			for _, in := range bb.Instrs {
+				if al, ok := in.(*ssa.Alloc); ok && al.Comment != "" {
+					if _, done := fr.regs[al]; !done {
+						func() {
+							defer func() { recover() }()
+							c.val(s, al)
+						}()
+					}
+				}
+			}
+		}
+		// enter the header as if coming from a predecessor outside the loop
+		for _, p := range hdr.Preds {
+			if !fr.fi.inLoop[hdr][p] {
+				fr.prev = p
+			}
+		}
+		fr.block = hdr
+		fr.idx = 0
+	}
 	c.run(s)
 }
 
@@ -687,9 +750,21 @@ func (c *Ctx) enterBlock(s *State, fr *Frame) bool {
 	// loop frames are relative to function entry: anything allocated since function entry may be modified by the loop
 	preSnap := &loopSnap{heap: s.snapshot(), allocBase: "alloc0"}
 	env := c.loopEnv(s, fr, preSnap)
-	if lc != nil {
+	if c.startLoop == b && fr.fn == c.fn && !c.startLoopEntered {
+		// opt startloop: this is where execution starts; the invariant is ASSUMED below (it is established by the companion
+		// "opt cutatloop" contract), nothing to check on entry
+		c.startLoopEntered = true
+	} else if lc != nil {
 		for i, inv := range lc.Invariants {
 			c.obligeClause(s, env, "inv-init", loopLabel(ord, inv, i), inv)
+		}
+		if cl := c.fc.Opts["cutatloop"]; cl != "" && fr.fn == c.fn && len(s.frames) == 1 {
+			if want, _ := strconv.Atoi(strings.TrimSpace(cl)); want == ord {
+				// opt cutatloop: the path ends here, having shown the invariant on arrival (and the frame so far)
+				c.assumptions[fmt.Sprintf("opt cutatloop: %s is examined up to the head of loop #%d (the rest by the companion contract with opt startloop)", c.name, ord)] = true
+				c.reach(s, "reach", "return", "loop head reachable")
+				return false
+			}
 		}
 	} else {
 		c.noteOnce(fmt.Sprintf("loop #%d of %s has no invariant (treated as true)", ord, fr.fn.Name()))
@@ -1241,6 +1316,57 @@ func (c *Ctx) val(s *State, v ssa.Value) Val {
 	}
 	if r, ok := fr.regs[v]; ok {
 		return r
+	}
+	if c.lazyRegs && len(s.frames) == 1 {
+		// opt startloop: a value computed before the loop is arbitrary here (only the invariant speaks about it)
+		if al, ok := v.(*ssa.Alloc); ok {
+			c.step(s, fr, al) // allocates the variable's cell (zero value) and binds its source name ...
+			el := al.Type().(*types.Pointer).Elem()
+			if r, ok := fr.regs[v]; ok {
+				if !isAggregate(el) {
+					c.storeAt(s, r, el, c.freshVal(s, "pre."+al.Comment, el)) // ... then makes its content arbitrary
+				}
+				return r
+			}
+		} else if in, ok := v.(ssa.Instruction); ok && v.Type() != nil {
+			// a value that depends only on its operands (address arithmetic, arithmetic, len/cap, conversions) is recomputed
+			// from them, so that e.g. a length taken before the loop is still the length of the slice taken before the loop
+			pure := false
+			switch x := in.(type) {
+			case *ssa.BinOp, *ssa.Convert, *ssa.ChangeType, *ssa.FieldAddr, *ssa.IndexAddr, *ssa.Slice, *ssa.Field:
+				pure = true
+			case *ssa.UnOp:
+				pure = x.Op != token.MUL && x.Op != token.ARROW
+			case *ssa.Call:
+				if b, ok := x.Common().Value.(*ssa.Builtin); ok && (b.Name() == "len" || b.Name() == "cap") {
+					pure = true
+				}
+			}
+			if pure {
+				ok := false
+				func() {
+					defer func() {
+						if r := recover(); r != nil {
+							if _, isU := r.(unsupported); !isU {
+								panic(r)
+							}
+						}
+					}()
+					c.step(s, fr, in)
+					_, ok = fr.regs[v]
+				}()
+				if ok {
+					return fr.regs[v]
+				}
+			}
+			nv := c.freshVal(s, "pre."+v.Name(), v.Type())
+			if sc, ok := nv.(Scalar); ok && sc.S == SRef {
+				c.assume(s, c.ptrFact(sc))
+			}
+			c.typeRangeAssume(s, nv)
+			fr.regs[v] = nv
+			return nv
+		}
 	}
 	unsup("value %s (%T) not defined on this path", v.Name(), v)
 	return nil
